@@ -135,7 +135,7 @@ theorem sockRut_noRt (s : St) (n : Nat) (t : Option Int) (hk : s.kind ≠ .udp) 
     cases e with
     | runtime => exact absurd rfl h
     | eof => simp only; split <;> simp [NoRt, takeAll]
-    | _ => simp [NoRt, takeAll]
+    | _ => simp [NoRt, takeBuf]
   | _ => simp [NoRt]
 
 theorem serReadFinish_noRt (s : St) (n : Nat) : NoRt (serReadFinish s n) := by
